@@ -104,6 +104,38 @@ func runChatRace(t *tr.Trace, r *tr.Rand, n int) {
 			t.Fail("C15", "broadcast_reaches_every_member", fmt.Sprintf("the members present before the message got it %d (b) and %d (slow member) times", has(bm, "chat", text), has(sm, "chat", text)))
 		}
 		t.Op(tr.B(live+replay == 1), "race", slowCap)
+		// several broadcasts queued at a member before its writer takes any of
+		// them: each is delivered as it was sent (what is queued is a value of its
+		// own, not a view of a buffer that the next broadcast reuses)
+		s.Disconnect() // the slow member would block the senders again
+		w.Quiesce(r)
+		a.Out()
+		b.Out()
+		j.Out()
+		var texts []string
+		for k := 0; k < r.Range(3, 8); k++ {
+			x := fmt.Sprintf("burst-%d-%d-%s", hi, k, string(rune('a'+k)))
+			if k%2 == 1 {
+				x += "-with-a-much-longer-tail-so-that-lengths-differ-0123456789"
+			}
+			texts = append(texts, x)
+			snd := a
+			if k%3 == 2 {
+				snd = j
+			}
+			snd.Send(sigdrv.M{"type": "chat", "kind": "", "value": x})
+		}
+		bm2 := b.Out()
+		t.Checked("C15.queued_broadcasts_intact")
+		var gotTexts []string
+		for _, m := range bm2 {
+			if m.Type == "chat" {
+				gotTexts = append(gotTexts, m.ValueString())
+			}
+		}
+		if fmt.Sprint(gotTexts) != fmt.Sprint(texts) {
+			t.Fail("C15", "queued_broadcasts_intact", fmt.Sprintf("%d broadcasts were queued at member b before it read any: sent %q, b received %q", len(texts), texts, gotTexts))
+		}
 		w.Close()
 	}
 }
